@@ -24,7 +24,8 @@ BOUNDS = {
              '_tsc_parallel with 1..5 stripes (odd and even); partition_parallel with N in 0..2 and more threads than particles; bin_kmu/bin_kppi on '
              'n1d in {2,3} with free edges (modes beyond the last edge) and 2 threads; linear_interp with a free abscissa; expand_poles_to_3d, '
              'get_smoothing, get_delta_mu2, normalize_field, shift_field_fft, _normalize on n1d in {2,3}; HOD passes with 0..2 hosts and up to 5 threads; '
-             'fast_concatenate N1,N2 in 0..3; _searchsorted_parallel sizes 0..2',
+             'fast_concatenate N1,N2 in 0..3; _searchsorted_parallel sizes 0..2'
+             '; also: bin_kmu/bin_kppi additionally with ambient numba thread count 1',
     'thorough': 'quick plus the thorough boundary sizes of the contributing harnesses (n1d up to 4, 3 halos, 3 hosts)',
 }
 OUTSIDE = 'kernels not named in the property (zcv, shear, prepare_sim, _compute_ngal_*, the NFW path); sizes above the bound; slice bounds (numba clips ' \
